@@ -35,7 +35,7 @@ META = dict(
 def job_rules_transposed(with_mirex=False, window=(3, 4)):
     fixed = None
     if with_mirex:
-        fixed = {i: (1 if i in (4, 7) else 0) for i in range(12) if i not in window}
+        fixed = {i: (1 if i in (0, 4, 7) else 0) for i in range(12) if i not in window}
 
     def build(ctx):
         k = ctx.integer('k')
